@@ -66,7 +66,7 @@ def main(ctx):
         ctx.notes.append("unsafe-site scan: rten-tensor/src/tensor.rs not readable")
     failed = ctx.prove(GROUP, "Props_C06", THEOREMS) if THEOREMS else []
     agree = "agree_old" if os.environ.get("VERIF_C06_OLD") == "1" else "agree"
-    n = ctx.n(600, 6000)
+    n = ctx.n(600, 4000)
     for profile in ("release", "debug"):
         bindir = ctx.harness(GROUP, profile=profile, bins=["c06"])
         rc, mode = ctx.run_bin(os.path.join(bindir, "c06"), ["mode"])
@@ -74,7 +74,7 @@ def main(ctx):
         if mode.strip() != want:
             raise vf.CheckerBroken("harness profile %s reports arithmetic mode %r" % (profile, mode.strip()))
         cases = ctx.gen_exec(bindir, "c06", n, inputs=ctx.replay_inputs())
-        ctx.correspond("constructors+indexing[%s]" % profile, GROUP, REQ, cases, show="show", agree=agree, shard=800,
+        ctx.correspond("constructors+indexing[%s]" % profile, GROUP, REQ, cases, show="show", agree=agree, shard=400,
                        fn_name="Tensor.Layout (%s arithmetic)" % want)
     if failed and not ctx.violations:
         ctx.proof_broken(failed, "all correspondence cases of this run")
